@@ -58,6 +58,10 @@ Definition name_eqb (a b : name) : bool := labels_eqb (lower_name a) (lower_name
 Definition star : label := [42].
 Definition is_star (l : label) : bool := bytes_eqb l star.
 
+(* Name::zone_of: [z] is [n] or an ancestor of [n] (labels compared ignoring ASCII case) *)
+Definition zone_of (z n : name) : bool :=
+  (length z <=? length n)%nat && name_eqb z (skipn (length n - length z) n).
+
 (* Name::num_labels: a leading "*" label is not counted *)
 Definition num_labels (n : name) : N :=
   match n with
@@ -277,6 +281,10 @@ Section WithSig.
             else GErr Bogus true         (* RrsigsNotPresent *)
     | sg :: sigs' =>
         if (8 <? i)%nat then select_sigs lookup qname qtype (S i) sigs' kname ktype rs now any
+        (* since fix 6b7ad4d: an RRSIG whose signer name is not the RRset owner or an ancestor of it
+           is skipped before any lookup (RFC 4035 5.3.1) *)
+        else if negb (zone_of (s_signer (g_in sg)) kname)
+        then select_sigs lookup qname qtype (S i) sigs' kname ktype rs now any
         else if name_eqb (s_signer (g_in sg)) qname && (qtype =? 48)
         then select_sigs lookup qname qtype (S i) sigs' kname ktype rs now any
         else match lookup (s_signer (g_in sg)) with
